@@ -249,7 +249,7 @@ def run(ctx):
             c["hooks"] = True
     ctx.phase("driving")
     traces = drive(ctx, cases)
-    hook_sources = [{"source": "driver case %d" % i, "events": t.pop("hook_events")} for i, t in enumerate(traces) if "hook_events" in t]
+    hook_sources = [{"source": "driver case %d" % i, "tid": t["tid"], "events": t.pop("hook_events")} for i, t in enumerate(traces) if "hook_events" in t]
     nsched = sum(1 for c, t in zip(cases, traces) if c.get("schedule") and t.get("enforced"))
     ctx.cov["schedules_enforced"] = nsched
     ctx.cov["schedules_requested"] = sum(1 for c in cases if c.get("schedule"))
@@ -267,6 +267,9 @@ def run(ctx):
     ctx.phase("hook_traces")
     from drivers import hooktrace
     tests = hooktrace.REPO_TESTS[:1] if ctx.quick else hooktrace.REPO_TESTS[:4]
+    # hook traces of driver cases are only judged inside the domain boundary B-02 (info -1: outside, e.g. spectra that share the
+    # first two key columns form a fold group larger than rows div folds; an empty fold is then no violation)
+    hook_sources = [h for h in hook_sources if verdicts[h["tid"]].get("info") != -1]
     hooktrace.validate_events(ctx, hook_sources + hooktrace.traced_repo_tests(tests), "C02")
     ctx.phase("negative_controls")
     crng = np.random.default_rng(ctx.seed + 3)
